@@ -542,6 +542,11 @@ func main() {
 		impSets = []pkgbuild.Options{pkgbuild.OptionsFromBits(0), pkgbuild.OptionsFromBits(23)} // none; every option but private
 	}
 	addPlain(newSchemaCase("gridimp", schema.GridImported(schema.GridOptions{FloatKeyContainers: *floatKeys})), impSets)
+	dirSets := impSets
+	if *tier == "quick" {
+		dirSets = impSets[len(impSets)-1:]
+	}
+	addPlain(newSchemaCase("impdirect", schema.GridImportedDirect()), dirSets)
 	for i := 0; i < nRandom; i++ {
 		c := gcfg
 		if i%3 == 1 {
@@ -565,7 +570,7 @@ func main() {
 	}
 
 	// ---- run ----
-	slots := runtime.NumCPU() * 5 / 4
+	slots := runtime.NumCPU() * 3 / 2
 	waves := (len(jobs) + slots - 1) / slots
 	buildReserve := 25 * time.Second
 	if *tier == "thorough" {
